@@ -58,8 +58,8 @@ def e1_diff_part(prop, tier, seed):
     }
     return cov, viols
 
-def e1_part(prop, tier, seed, level="model_checking"):
-    binary = build_conc()
+def e1_part(prop, tier, seed, level="model_checking", profile="release"):
+    binary = build_conc(profile)
     nsh = 64 if tier == "quick" else 128
     args = ["prop", "--prop", prop, "--tier", tier, "--seed", str(seed)]
     if tier == "quick":
@@ -67,7 +67,8 @@ def e1_part(prop, tier, seed, level="model_checking"):
     else:
         args += ["--cfg-max-secs", "600"]
     cap = 1800 if tier == "quick" else 6 * 3600
-    shards = run_shards(binary, args, nsh, os.path.join(TARGET, "run", f"{prop}-e1"), cap)
+    aborts = []
+    shards = run_shards(binary, args, nsh, os.path.join(TARGET, "run", f"{prop}-e1-{profile}"), cap, aborts)
     agg = {k: 0 for k in ("configs", "executions", "complete_executions", "states", "transitions", "pruned", "waited_execs", "hang_execs", "nontrivial_configs", "nontrivial_outcomes", "distinct_outcomes", "expect_hang_configs", "expect_hang_seen")}
     capped, errors, samples, viols = [], [], [], []
     maxpre = 0
@@ -92,8 +93,13 @@ def e1_part(prop, tier, seed, level="model_checking"):
             v["engine"] = "E1"
             v["replay_cmd"] = f"{binary} replay {v['cli']} --schedule {v['schedule']} --expect {prop if v['class']!='unexpected-panic' and v['class']!='final-check-panicked' else 'PANIC'}/{v['class']}"
             mine.append(v)
+    for a in aborts:
+        kind = re.search(r"--kind (\S+)", a["cli"])
+        mine.append({"prop": prop, "engine": "E1", "class": "abort", "kind": kind.group(1) if kind else "?", "cli": a["cli"], "count": 1, "schedule": "",
+                     "msg": f"[{a['cli']}] the process aborts ({profile} build): non-unwinding panic: {a['panic']}",
+                     "replay_cmd": f"{binary} one {a['cli']}"})
     cov = {
-        "engine_E1": {
+        ("engine_E1" if profile == "release" else f"engine_E1_{profile}"): {
             "configurations": agg["configs"],
             "executions": agg["executions"],
             "complete_executions": agg["complete_executions"],
@@ -116,7 +122,7 @@ def e1_part(prop, tier, seed, level="model_checking"):
         "evaluations": agg["executions"],
         "distinct_nontrivial": agg["nontrivial_outcomes"],
         "samples": samples[:6],
-        "exhaustive": len(capped) == 0,
+        "exhaustive": len(capped) == 0 and len(shards) == nsh,
     }
     return cov, mine
 
@@ -179,7 +185,7 @@ def run_check(prop, tier, seed):
         if isinstance(eng, tuple):
             eng, kw = eng
         if eng == "E1":
-            c, v = e1_part(prop, tier, seed)
+            c, v = e1_part(prop, tier, seed, **kw)
             assumptions += E1_ASSUMPTIONS
             rules.append(RULES["E1"])
         elif eng == "E1diff":
@@ -210,7 +216,7 @@ def run_check(prop, tier, seed):
 
 CHECKS = {
     "C01": {"engines": ["E1"]},
-    "C02": {"engines": ["E1", "E3"]},
+    "C02": {"engines": ["E1", "E3", ("E3", {"suite": "C02L"})]},
     "C03": {"engines": ["E3", "E1"]},
     "C04": {"engines": ["E1", "E3"]},
     "C05": {"engines": ["E3", "E1"]},
@@ -218,7 +224,7 @@ CHECKS = {
     "C07": {"engines": ["E1"]},
     "C08": {"engines": ["E3", "E1"]},
     "C09": {"engines": ["E1"]},
-    "C10": {"engines": ["E3", "E1"]},
+    "C10": {"engines": [("E3", {"extra_classes": ("wrong-chunk-len", "empty-chunk", "wrong-element", "early-end", "len-mismatch", "foreach-count", "foreach-element", "revived", "after-skip", "wrong-begin")}), "E1"]},
     "C11": {"engines": ["E3", "E1"]},
     "C12": {"engines": ["E1", "E3"]},
     "C13": {"engines": ["E3", "E1"]},
@@ -226,6 +232,6 @@ CHECKS = {
     "C15": {"engines": ["E3", "E1"]},
     "C16": {"engines": [("E3", {"suite": "C16", "profiles": ("pdbg", "prel"), "all_tags": True}), ("E3", {"suite": "C16R", "profiles": ("pdbg", "prel"), "all_tags": True})], "level": "exploration"},
     "C17": {"engines": [("E3", {"profiles": ("pdbg", "prel"), "diff": True}), "E1diff"], "level": "exploration"},
-    "C18": {"engines": ["E1"], "level": "fault_enumeration"},
+    "C18": {"engines": ["E1", ("E1", {"profile": "hdbg"})], "level": "fault_enumeration"},
     "C19": {"engines": ["E3"]},
 }
